@@ -133,3 +133,99 @@ func impliedGuards(g Guard, depth int) []Guard {
 	}
 	return out
 }
+
+// DeepHit widens a must-pass predicate by one call level: an instruction also counts when it is a
+// synchronous call of an unexported function of the caller's package on every path of which an
+// instruction satisfying hit is executed (or an accepted edge is crossed). Code extracted from the
+// analysed function into a helper keeps satisfying the rule.
+func DeepHit(caller *ssa.Function, hit func(ssa.Instruction) bool, edge func(*ssa.BasicBlock, int) bool) func(ssa.Instruction) bool {
+	return func(in ssa.Instruction) bool {
+		if hit(in) {
+			return true
+		}
+		c, isc := in.(*ssa.Call)
+		if !isc {
+			return false
+		}
+		callee := c.Call.StaticCallee()
+		if callee == nil || callee.Blocks == nil || callee.Pkg != caller.Pkg || isExportedName(callee.Name()) || callee == caller {
+			return false
+		}
+		return MustPassOrEdge(Site{callee, callee.Blocks[0], -1, nil}, hit, edge)
+	}
+}
+
+// pushedKeyListArg: arg is what an invalidation sink must receive for the pushed frame - nil exactly
+// when the key list values[1] is null, otherwise values[1].values(); either written out in both
+// arms of the null test or hoisted into one variable (a phi of the two).
+func pushedKeyListArg(arg ssa.Value, use *ssa.BasicBlock) bool {
+	isNilTest := func(g Guard, want bool) bool {
+		c, ok := g.Cond.(*ssa.Call)
+		return ok && CalleeName(c) == "rueidis.(*RedisMessage).IsNil" && g.Pol == want
+	}
+	isValues := func(v ssa.Value) bool {
+		c, ok := v.(*ssa.Call)
+		return ok && CalleeName(c) == "rueidis.(*RedisMessage).values"
+	}
+	switch {
+	case IsNilConst(arg):
+		return Guarded(use, func(g Guard) bool { return isNilTest(g, true) })
+	case isValues(arg):
+		return Guarded(use, func(g Guard) bool { return isNilTest(g, false) })
+	}
+	ph, ok := arg.(*ssa.Phi)
+	if !ok {
+		return false
+	}
+	for k, e := range ph.Edges {
+		pred := ph.Block().Preds[k]
+		gs := append(append([]Guard{}, DomGuards(pred)...), edgeGuards(pred, ph.Block())...)
+		want := IsNilConst(e)
+		if !want && !isValues(e) {
+			return false
+		}
+		ok := false
+		for _, g := range gs {
+			if isNilTest(g, want) {
+				ok = true
+			}
+		}
+		if !ok {
+			return false
+		}
+	}
+	return true
+}
+
+// paramArgs resolves a value that is a parameter of an unexported, directly called function to the
+// arguments passed for it at every call site of the module (one level). For any other value it
+// returns the value itself. ok is false when the function has no static call site.
+func paramArgs(p *Prog, v ssa.Value) (vals []ssa.Value, sites []Site, ok bool) {
+	prm, isp := v.(*ssa.Parameter)
+	if !isp {
+		return []ssa.Value{v}, nil, true
+	}
+	fn := prm.Parent()
+	if fn == nil || fn.Parent() != nil || isExportedName(fn.Name()) {
+		return []ssa.Value{v}, nil, true
+	}
+	idx := -1
+	for i, q := range fn.Params {
+		if q == prm {
+			idx = i
+		}
+	}
+	cs := p.Callers(FuncName(fn))
+	if idx < 0 || len(cs) == 0 {
+		return nil, nil, false
+	}
+	for _, c := range cs {
+		args := CallArgs(c.Call())
+		if idx >= len(args) {
+			return nil, nil, false
+		}
+		vals = append(vals, args[idx])
+		sites = append(sites, c)
+	}
+	return vals, sites, true
+}
